@@ -395,7 +395,13 @@ fn blk_one(cx: &mut Ctx, sel: u8, rng: &mut Rng) {
             let mut sess = Session::new(m, 60000);
             blk::run_upload(cx, &Upload { shape: &shape, ep: rng.below(3) as u8, m, body, szx, dups, abandoned, dup_final: 0, fresh_tokens: rng.chance(1, 3) }, &mut sess);
         }
-        4 => blk::run_lifetime(cx, rng, &shapes),
+        4 => {
+            if rng.chance(1, 2) {
+                blk::run_lifetime(cx, rng, &shapes)
+            } else {
+                blk::run_keepalive(cx, rng, &shapes)
+            }
+        }
         _ => {
             // two transfers on keys that differ in endpoint, method or path, all interleavings
             let a = f_shape(rng, &shapes);
@@ -412,6 +418,8 @@ fn blk_one(cx: &mut Ctx, sel: u8, rng: &mut Rng) {
             let s1 = if rng.chance(1, 2) { blk::download_script(&a, 1, &ba, 0, 100) } else { blk::upload_script(&a, 1, &ba, 0, 100) };
             let mb2 = if rng.chance(1, 3) { 100 } else { 200 };
             let s2 = if rng.chance(1, 2) { blk::download_script(&b, epb, &bb, 0, mb2) } else { blk::upload_script(&b, epb, &bb, 0, mb2) };
+            let codes = [0x45u8, 0x41, 0x42, 0x43, 0x44, 0x5f, 0x80, 0x84, 0x8c, 0x8d, 0xa0, 0xa3];
+            let (s1, s2) = (s1.with_code(*rng.pick(&codes)), s2.with_code(*rng.pick(&codes)));
             if rng.chance(1, 2) {
                 blk::run_interleavings(cx, &s1, &s2, 64);
             } else {
